@@ -33,7 +33,9 @@ class Register(Operand):
     @property
     def cstruct(self):
         self._assert_types()
-        return encoding.Register(self.name.value, self.index)
+        raw = encoding.Register(self.name.value, self.index)
+        encoding.check_fits(raw, register_index=self.index)
+        return raw
 
     def __bytes__(self):
         return bytes(self.cstruct)
@@ -57,7 +59,9 @@ class Address(Operand):
     @property
     def cstruct(self):
         self._assert_types()
-        return encoding.Address(self.address)
+        raw = encoding.Address(self.address)
+        encoding.check_fits(raw, address=self.address)
+        return raw
 
     def __bytes__(self):
         return bytes(self.cstruct)
